@@ -138,6 +138,10 @@ def _bounds_struct(e: E, env, depth):
         return (tlo, thi)
     if op == 'ior':
         for x, y in ((e.args[0], e.args[1]), (e.args[1], e.args[0])):
+            xlo, xhi = _bounds(x, env, depth)
+            if xlo == 0 and xhi == 0:
+                return _bounds(y, env, depth)
+        for x, y in ((e.args[0], e.args[1]), (e.args[1], e.args[0])):
             if x.is_const and x.val >= 0:
                 ylo, yhi = _bounds(y, env, depth)
                 low = x.val & -x.val if x.val else (1 << 70)
